@@ -186,7 +186,10 @@ def report(pid, args, classes, results, wall, C):
                     hit = kf
                     break
             if hit is not None:
-                known_hit.setdefault(hit["id"], {"finding": hit, "count": 0})["count"] += 1
+                kh = known_hit.setdefault(hit["id"], {"finding": hit, "count": 0, "count_symbolic": 0})
+                kh["count"] += 1
+                if how == "symbolic":
+                    kh["count_symbolic"] += 1
                 continue
             violations.append((how, r, f, text))
 
@@ -226,8 +229,15 @@ def report(pid, args, classes, results, wall, C):
     fn_info = [C.source_info(c.target) for c in classes if getattr(c, "target", None)]
     level = getattr(__import__("contracts").LEVELS, "get")(pid, "proof")
     n_distinct = len({(r["contract"], json.dumps(r["case"], sort_keys=True, default=str)) for r in results})
+    n_known = sum(kh["count_symbolic"] for kh in known_hit.values())
+    n_helper = sum(len(r["helper_failed"]) for r in results)
     coverage = {
-        "obligations": tot["obligations"],
+        # obligations of the claim = all generated, minus those that reproduce a listed known finding and minus failed
+        # helper clauses (stronger-than-the-property clauses; reported as notes) - both are counted separately below
+        "obligations": tot["obligations"] - n_known - n_helper,
+        "obligations_generated": tot["obligations"],
+        "known_finding_obligations": n_known,
+        "helper_obligations_not_discharged": n_helper,
         "discharged": tot["proved"],
         "checker_cmd": f"cd /verif && ./check {pid} --tier {args.tier}",
         "trusted_base": TRUSTED_BASE,
